@@ -42,6 +42,15 @@ def setup(ctx: Any) -> None:
 def gen_case(rnd, tier: str, i: Any) -> Dict[str, Any]:
     big = rnd.random() < (0.04 if tier == "quick" else 0.03)
     case = gen_struct.gen_fileset(rnd, tier, big=big)
+    if case["params"].get("odd_labels") and rnd.random() < 0.5:
+        # complete events without a name (a missing symbol after loading); only here: the symbol-table properties speak of strings
+        import copy
+        for fn, tr in case["files"].items():
+            for k, e in enumerate(tr["traceEvents"]):
+                if k > 0 and isinstance(e, dict) and e.get("ph") == "X" and e.get("dur") is not None and e.get("cat") not in (None, "Trace") and "name" in e \
+                        and "ProfilerStep" not in str(e["name"]) and rnd.random() < 0.05:
+                    del e["name"]
+        case["params"]["nameless"] = True
     case["cfg"] = {
         "mode": rnd.choice(["parse", "load", "load"]),
         "mp": rnd.random() < 0.35,
@@ -143,7 +152,7 @@ def _check(case, cfg, files_raw, paths, d, res, ctx) -> None:  # noqa: ANN001
         res.bad("shift-constant", f"min_ts={min_ts} but earliest complete event of all ranks starts at {exp_min}")
     if not loaded and min_ts != 0:
         res.bad("shift-constant", f"parse-only: min_ts={min_ts}, expected 0")
-    n_step_names = len({s for s in st if "ProfilerStep" in s})
+    n_step_names = len({s for s in st if isinstance(s, str) and "ProfilerStep" in s})
     trimming = loaded and n_step_names >= 2
 
     for r, m in models.items():
@@ -176,7 +185,7 @@ def _check(case, cfg, files_raw, paths, d, res, ctx) -> None:  # noqa: ANN001
             res.counters["rows_compared"] += 1
             errs = []
             try:
-                if st[nm] != e.name:
+                if not core.same_symbol(st[nm], e.name):
                     errs.append(f"name {st[nm]!r} != {e.name!r}")
                 if st[ct] != e.cat:
                     errs.append(f"cat {st[ct]!r} != {e.cat!r}")
